@@ -93,7 +93,10 @@ def alone_case(core_case, idx):
 def pair_trace(args):
     label, core_case, idx, alt_case, alt_idx = args
     what = ('UntouchedByAssembliesItDoesNotBorder'
-            if label.startswith('distant') else 'IdenticalToStandAloneRun')
+            if label.startswith('distant') else
+            'IndependentOfHowManyShareItsType'
+            if label.startswith('shared-type') else
+            'IdenticalToStandAloneRun')
     dassh = common.import_dassh()
     d = common.workdir('c06p-' + label)
     ev = []
@@ -223,6 +226,34 @@ def run(tier, res, replay=None):
                     [[3.0 * x for x in co] for co in cell]
                     for cell in hot['power'][idy][comp]]
         pairs.append((f'distant-assembly-power-{gm}', far, 0, hot, 0))
+    # a gap-coupled core with two bundle meshes (19 pins at the centre, 7
+    # pins around it): the six ring assemblies as one shared type and as six
+    # identically worded types of their own - every assembly must come out
+    # the same (what is built per assembly depends on its surroundings, not
+    # on which other positions carry the same type name)
+    C19 = fitted_type(3, OF)
+    R7 = fitted_type(2, OF)
+    p7 = layout_positions(7)
+    for gm in ('no_flow', 'flow'):
+        names = ['C'] + ['R'] * 6
+        tys = {'C': C19, 'R': R7}
+        sh = make_core(rng, tys, [(r_, p_, names[i]) for i, (r_, p_) in
+                                  enumerate(p7)],
+                       [flow_for(tys[n], 0.08) for n in names], gap_model=gm,
+                       bypass_fraction=0.03, coolant='const', ncell=2,
+                       power_order=0,
+                       setup={'axial_mesh_size': 0.002,
+                              'axial_plane': [0.15, 0.3, 0.45]})
+        own = copy.deepcopy(sh)
+        own['types'] = {'C': copy.deepcopy(C19)}
+        for i in range(1, 7):
+            own['types'][f'R{i}'] = copy.deepcopy(R7)
+            ent = list(own['assign'][i])
+            ent[0] = f'R{i}'
+            own['assign'][i] = type(sh['assign'][i])(ent)
+        for idx in (0, 2, 5):
+            pairs.append((f'shared-type-vs-own-types-{gm}-{idx}', sh, idx,
+                          own, idx))
     with ProcessPoolExecutor(max_workers=common.NCPU) as ex:
         t_own = list(ex.map(own_and_steps, cores))
         t_pair = list(ex.map(pair_trace, pairs))
